@@ -121,6 +121,19 @@ def universe(tier):
             for b in BIN:
                 yield ('literal-pairs', (b, x, y), AUX, False, 'abA:4')
             yield ('literal-pairs', ('seq', x, ('ref', 'Ry')), AUX + [('Ry', ('rule', None, y))], False, 'abA:4')
+    # literal shapes: case-insensitive and plain literals that mix letters with digits, blanks and punctuation, on every
+    # case variant of their own spelling
+    for spelling in ('a1', '1a', 'a b', 'a_b', 'aB', 'a-b:', 'ab'):
+        variants = set()
+        for bits in range(1 << len(spelling)):
+            v = ''.join(c.upper() if bits >> i & 1 else c.lower() for i, c in enumerate(spelling))
+            variants.update((v, v + 'x', v[:-1], 'x' + v, v + v))
+        inputs = sorted(variants)
+        for kind in ('str', 'stri'):
+            x = (kind, spelling)
+            for e in (x, ('seq', x, ('opt', ('str', 'x'))), ('choice', x, ('re', '.*')), ('star', x), ('seq', ('stri', 'x'), x)):
+                yield ('literal-shapes', e, AUX, False, inputs)
+                yield ('literal-shapes/bytes', to_bytes(e), [(k, (d[0], d[1], to_bytes(d[2]))) for k, d in AUX], True, inputs)
     # bytes mode
     bl = [('str', 'a'), ('str', 'ab'), ('str', ''), ('re', 'a+'), ('re', 'b?'), ('byte', 0x61),
           ('byte', 0x62), ('ref', 'Rab'), ('fail',), ('back', 1)]
